@@ -64,6 +64,13 @@ def run(ctx, replay=None):
              for n in ([rnd.randint(20, 120), rnd.randint(130, 500), cap_evt - 1] if ctx.tier == "quick"
                        else [5, 64, 127, 128, 129, 300, 450, 500, 511, 512])]
     below += [{"sessions": rnd.randint(550, 700), "hold_tick": False, "reassoc": False, "deadline_ms": 4000}]   # tick alone
+    # the two thresholds apart: MORE timer events in one turn than the event queue holds (sessions x urrs > 512) while the
+    # tick reports FEWER sessions than the report queue holds (< 128): the periodic server never blocks, so no wedge
+    below += [{"sessions": n, "urrs": u, "hold_tick": True, "reassoc": True, "deadline_ms": 5000}
+              for n, u in ([(rnd.randint(100, 127), 6), (rnd.randint(66, 99), 8)] if ctx.tier == "quick"
+                           else [(65, 8), (66, 8), (90, 6), (100, 6), (120, 5), (127, 5), (127, 9)])]
+    # one PDR's packet queue overrun (its surplus is dropped): the loop must not block on a queue only it drains
+    below += [{"sessions": 1, "burst": b, "deadline_ms": 4000} for b in ([rnd.randint(513, 900)] if ctx.tier == "quick" else [511, 512, 513, 600, 2000])]
     above = [{"sessions": n, "hold_tick": True, "reassoc": True, "deadline_ms": 2500}
              for n in ([rnd.randint(530, 800)] if ctx.tier == "quick" else [513, 600, 1000])]
     if replay:
